@@ -35,6 +35,10 @@ def rand_path(rng, odd=0.15):
 def _set_for(rng, c, negate):
     """A bracket expression that accepts c (or, negated, still accepts c)."""
     pool = PLAIN + '.+$^'
+    if c == '-':
+        # the only way to list '-' itself: at the end of the string, where the
+        # spec gives it no special meaning
+        return '[' + ''.join(rng.sample(PLAIN, rng.randint(1, 2))) + '-]'
     if negate:
         others = [x for x in pool if x != c]
         body = ''.join(rng.sample(others, rng.randint(1, 3)))
@@ -54,7 +58,8 @@ def _set_for(rng, c, negate):
         rng.shuffle(lst)
         body = ''.join(lst)
     if body[0] == '!':
-        body = body[1:] + '!'
+        # '!' is only special right after '['
+        body = (body[1:] or rng.choice(PLAIN)) + '!'
     if rng.random() < 0.08:
         body += '-'                  # spec: trailing minus is a plain '-'
     return '[' + body + ']'
@@ -66,8 +71,10 @@ def generalise_part(rng, part, p=0.35):
     while i < len(part):
         c = part[i]
         r = rng.random()
-        if r > p or c in '-!,':
+        if r > p or c == ',':
             out.append(c); i += 1
+        elif c in '-!':
+            out.append(_set_for(rng, c, False)); i += 1
         else:
             k = rng.random()
             if k < 0.25:
